@@ -24,7 +24,7 @@ def ref_encode_native(fmt, t, v, fam, ns):
         return [ref_encode_native(fmt, t.args[0], x, fam, ns) for x in v]
     if k == "tuplefix":
         return [ref_encode_native(fmt, a, x, fam, ns) for a, x in zip(t.args, v)]
-    if k in ("dict", "mapping", "ordereddict"):
+    if k in ("dict", "mapping", "ordereddict", "mappingproxy"):
         return {ref_encode_native(fmt, t.args[0], a, fam, ns): ref_encode_native(fmt, t.args[1], b, fam, ns) for a, b in v.items()}
     if k == "opt":
         return None if v is None else ref_encode_native(fmt, t.args[0], v, fam, ns)
